@@ -262,6 +262,12 @@ func runSession(e *Env, o *oracle, ops []Op, mode string) (*sessionRec, *Violati
 			}
 		case "close":
 			open = false
+			if e.UncleanClose {
+				// Close failed with the injected error: not a checkpoint; the next Open recovers
+				cur.unresolved = cur.allowed(e.Keys, nil, false)
+				e.UncleanClose = false
+				break
+			}
 			cur.syncPoint() // C09: a clean Close is a durable checkpoint
 			if vv := e.CheckStructure(true); vv != nil {
 				return rec, vv
@@ -280,7 +286,9 @@ func runSession(e *Env, o *oracle, ops []Op, mode string) (*sessionRec, *Violati
 				cur.syncPoint() // a write that returned an error did not reach its sync
 			}
 		case "sync":
-			cur.syncPoint()
+			if !e.LastWriteFailed {
+				cur.syncPoint() // a Sync that returned the injected error is not a sync point
+			}
 		}
 	}
 	rec.snaps = append(rec.snaps, cur.clone())
@@ -454,12 +462,25 @@ func (crashEngine) Generate(rng *rand.Rand, prop string, thorough bool) *Plan {
 	id := 0
 	for e := 0; e < nEpochs; e++ {
 		ops := append([]Op{{K: "open"}}, GenSeqOps(rng, cfg, g, &id)...)
-		if (prop == "C03" || prop == "C04" || prop == "C06") && rng.Intn(3) == 0 {
+		if prop == "C06" && rng.Intn(4) == 0 {
+			// an fsync of a segment fails (EIO): before an explicit Sync, or (sync-after-every-write) inside a write
+			var pos []int
+			for i, op := range ops {
+				if (cfg.SyncMode == 1 && op.K == "sync") || (cfg.SyncMode == 2 && (op.K == "put" || op.K == "del")) {
+					pos = append(pos, i)
+				}
+			}
+			if len(pos) > 0 {
+				i := pos[rng.Intn(len(pos))]
+				ops = append(ops[:i:i], append([]Op{{K: "syncfail"}}, ops[i:]...)...)
+			}
+		}
+		if (prop == "C03" || prop == "C04" || prop == "C05" || prop == "C06") && rng.Intn(3) == 0 {
 			// injected I/O errors: the record append of 1-2 writes fails with ENOSPC after part of it was stored
 			for n := 1 + rng.Intn(2); n > 0; n-- {
 				var pos []int
 				for i, op := range ops {
-					if (op.K == "put" || op.K == "del") && (i == 0 || ops[i-1].K != "iofail") {
+					if (op.K == "put" || op.K == "del") && (i == 0 || (ops[i-1].K != "iofail" && ops[i-1].K != "syncfail")) {
 						pos = append(pos, i)
 					}
 				}
